@@ -220,9 +220,13 @@ CLAIMED = {
             "Proved in Lean for the model: for every hash with 32-byte output, every non-empty seed and every history of generate/reseed "
             "calls shorter than 2^31-258 operations, the model's byte stream equals the SP 800-90A Hash_DRBG stream; over-limit requests and "
             "empty seeds are refused with the state unchanged. The model is tied to src/rand/relic_rand_hashd.c by running both on the same "
-            "histories (boundary request sizes, reseeds, 40k-call histories) and diffing byte-for-byte. bn_rand and bn_rand_mod are executable "
-            "models over the DRBG model (digit filling, top-digit mask, the rejection loop) compared on bit lengths around the digit size and "
-            "bounds from 2 to the capacity; their specification column is 'at most the requested bits' / 'in [1, bound) in normal form'.",
+            "histories (boundary request sizes, reseeds, 40k-call histories) and diffing byte-for-byte. Class A (model proved for all inputs and "
+            "executed on every line over the DRBG model): bn_rand (digit filling, top-digit mask: value below 2^bits for every request, byte "
+            "source and state; refusal exactly beyond the capacity; the state advances as ONE draw of ceil(bits/w)*(w/8) bytes — shown on the "
+            "bn_rand_st lines by the next 16 bytes of the generator), bn_rand_mod (rejection loop: result in [1, bound)), fp_rand (mask to "
+            "RLC_FP_BITS, subtraction loop: result = masked draw mod p < p, one draw; every prime the base and p255 builds can select) and "
+            "fb_rand (degree below RLC_FB_BITS, one draw). Class C: ep_rand / eb_rand / ed_rand (bn_rand_mod followed by a fixed-base "
+            "multiplication; the two halves are covered separately here and by C03), rand_init's entropy source (not deterministic).",
             "Trusted: Lean kernel (axioms propext, Classical.choice, Quot.sound); hand-written model tied by correspondence only; SHA-256 as "
             "executable FIPS 180-4 spec (validated against md_map_sh256 in the same run); ctx->counter is an int (history bound).",
             "DESIGN.md §5 C15"),
